@@ -47,16 +47,16 @@ def run(ctx):
     ctx.tlc_check("Journal.tla", q("c03_exh_quick.cfg", "c03_exh_thorough.cfg"), timeout=q(900, 3000))
     # 2. replay with crash/damage tables
     simcfg = q("c03_sim_quick.cfg", "c03_sim_thorough.cfg")
-    beh = ctx.tlc_behaviours("Journal.tla", simcfg, num=q(64, 260), depth=q(40, 60), timeout=q(900, 3000))
-    beh = beh[:q(40, 100)]
+    beh = ctx.tlc_behaviours("Journal.tla", simcfg, num=q(64, 160), depth=q(40, 60), timeout=q(900, 3000))
+    beh = beh[:q(40, 60)]
     amp = q({"idxfaults": "none"}, {"idxfaults": "none", "extraCuts": 10})
     cases = bc.make_cases(ctx, beh, simcfg, amp)
     if ctx.tier == "thorough":
         # every byte between the synced and the written offset, every byte of every record damaged: a subset of the histories
-        for c in cases[:12]:
+        for c in cases[:6]:
             c["amp"] = {"idxfaults": "none", "cuts": "all", "damage": "all"}
     selftests(ctx, binary, cases)
-    res = ctx.run_engine(binary, [], cases, test_run=bc.TEST, shards=q(8, 12), timeout=q(1500, 6000))
+    res = ctx.run_engine(binary, [], cases, test_run=bc.TEST, shards=4, timeout=q(1500, 6000))
     stats = bc.classify(ctx, "C03", binary, cases, res, critical)
     ctx.cov["engine_stats"] = stats
     for k in ("crash_images", "crash_images_inside_unsynced", "damage_images", "damage_rule_dataloss"):
@@ -101,8 +101,8 @@ def selftests(ctx, binary, cases):
 
 def traces(ctx, binary):
     q = ctx.q
-    tb = ctx.tlc_behaviours("Journal.tla", "c03_sim_trace.cfg", num=q(32, 160), depth=40, seed=ctx.seed + 500, timeout=q(900, 3000))
-    tb = tb[:q(24, 120)]
+    tb = ctx.tlc_behaviours("Journal.tla", "c03_sim_trace.cfg", num=q(32, 100), depth=40, seed=ctx.seed + 500, timeout=q(900, 3000))
+    tb = tb[:q(24, 60)]
     tcases = bc.make_cases(ctx, tb, "c03_sim_trace.cfg", {"images": "none"})
     res, parsed = bc.strace_cases(ctx, binary, tcases, "c03")
     bc.classify(ctx, "C03", binary, tcases, res, lambda c, r: False)
